@@ -53,6 +53,9 @@ def run(ctx):
     for merge in (True, False):
         for seed in range(3):
             tasks.append(dict(fn='check_misc', kw=dict(merge=merge, seed=seed + ctx.seed)))
+    for n in (2, 10, 11, 12, 23):
+        for merge in (True, False):
+            tasks.append(dict(fn='check_wide_vector', kw=dict(n=n, merge=merge)))
     for gate in ('AND', 'OR', 'NAND', 'NOR', 'XOR'):
         for nin in (2, 3, 4):
             tasks.append(dict(fn='check_bench', kw=dict(gate=gate, nin=nin)))
@@ -78,6 +81,8 @@ def run(ctx):
                 key = 'bench[gates with more than two inputs]'
             elif t['fn'] == 'check_bench':
                 key = 'bench[%s/%d]' % (kw['gate'], kw['nin'])
+            elif t['fn'] == 'check_wide_vector':
+                key = 'wide_vector[merge=%s]' % kw['merge']
             else:
                 key = 'misc[merge=%s]' % kw['merge']
             if key not in first:
